@@ -121,9 +121,15 @@ func init() {
 			continue // not string built-ins on every receiver
 		}
 		builtinContexts = append(builtinContexts,
-			litContext{"variable-after-" + fn, func(q string) string { return "{{ v = " + q + " }}{{ w = v." + fn + " }}{{ u = v." + fn + " }}[[{{ v }}]]" }, func(l string) string { return l }, false},
-			litContext{"raw-of-variable-after-" + fn, func(q string) string { return "{{ v = " + q + " }}@each(k in [1, 2]){{ w = v." + fn + " }}@end[[{{ v.raw() }}]]" }, func(l string) string { return l }, true},
-			litContext{"element-after-" + fn, func(q string) string { return "{{ a = [" + q + "] }}{{ w = a[0]." + fn + " }}@each(e in a){{ x = e." + fn + " }}@end[[{{ a[0] }}]]" }, func(l string) string { return l }, false},
+			litContext{"variable-after-" + fn, func(q string) string {
+				return "{{ v = " + q + " }}{{ w = v." + fn + " }}{{ u = v." + fn + " }}[[{{ v }}]]"
+			}, func(l string) string { return l }, false},
+			litContext{"raw-of-variable-after-" + fn, func(q string) string {
+				return "{{ v = " + q + " }}@each(k in [1, 2]){{ w = v." + fn + " }}@end[[{{ v.raw() }}]]"
+			}, func(l string) string { return l }, true},
+			litContext{"element-after-" + fn, func(q string) string {
+				return "{{ a = [" + q + "] }}{{ w = a[0]." + fn + " }}@each(e in a){{ x = e." + fn + " }}@end[[{{ a[0] }}]]"
+			}, func(l string) string { return l }, false},
 		)
 	}
 }
